@@ -86,6 +86,9 @@ def parse(res, out, rc):
             res.reason = 'vacuous: cover property not satisfied'
         else:
             res.status = 'PASS'
+    elif 'VERIFICATION:- FAILED' in out and 'encountered no panics' in out:
+        res.status = 'FAIL'
+        res.failed = ['the expected panic did not occur (should_panic harness returned normally)']
     elif 'VERIFICATION:- FAILED' in out:
         if re.search(r'out of memory|Status: ERROR|std::bad_alloc|Killed', out) and not failed:
             res.reason = 'out of memory / tool error'
